@@ -8,6 +8,7 @@ import (
 
 	"github.com/sarchlab/akita/v4/sim"
 	"github.com/sarchlab/mgpusim/v4/amd/driver"
+	"github.com/sarchlab/mgpusim/v4/amd/insts"
 	"github.com/sarchlab/mgpusim/v4/amd/protocol"
 
 	"verif/dsim/choice"
@@ -28,7 +29,7 @@ func C18Meta() harness.Meta {
 		StubComponents: []string{"engine (SeededEngine)", "goroutine controller (canonical schedule)", "generated gather kernel (kasm)"},
 		Assumptions:    []string{"workloads are element-wise (table flag) so every output element is computed by the same instruction sequence whatever the spreading: bit-identical results are required", "buffers are distributed before data is copied into them (as the shipped workloads do)"},
 		FaultKinds:     []string{"tie_reorder", "config_swarm"},
-		ExpectedProbes: []string{"gather_kernel", "shipped_workload", "unified_device", "plain_distributed", "workload_split", "timing", "emulation", "two_gpus", "four_gpus", "launch_on_non_home_gpu"},
+		ExpectedProbes: []string{"gather_kernel", "shipped_workload", "unified_device", "plain_distributed", "workload_split", "timing", "emulation", "two_gpus", "four_gpus", "launch_on_non_home_gpu", "two_dimensional_launch"},
 		PerRunTimeoutS: 600,
 		ShrinkBudget:   24,
 	}
@@ -45,6 +46,8 @@ type c18cfg struct {
 	LaunchOn int
 	Log2N    int
 	WG       int
+	WGY      int // > 1: two-dimensional launch, work-group WG/WGY x WGY, grid width GridW
+	GridW    int
 	Permute  bool
 }
 
@@ -91,6 +94,16 @@ func C18(t *testing.T, ch *choice.Source, opt harness.Options, env *Env) harness
 	if c.WG == 192 {
 		c.WG = 128
 	}
+	if ch.Bool(1, 3, "twodim") {
+		// a two-dimensional launch of the same kernel; work-groups wider than tall as well as square ones
+		c.WG = 64
+		c.WGY = 1 << (1 + ch.Intn(3, "wgy")) // 2, 4, 8
+		c.GridW = 64 << ch.Intn(3, "gridw") // 64, 128, 256 work-items wide
+		if c.Log2N < 10 {
+			c.Log2N = 10
+		}
+		probes["two_dimensional_launch"] = 1
+	}
 	k := uint32(2*ch.Intn(1<<12, "k") + 1)
 	cc := uint32(ch.Intn(1<<16, "c"))
 	// plain mode: buffers over a drawn subset (at least two GPUs), launch on a drawn GPU
@@ -132,7 +145,14 @@ func C18(t *testing.T, ch *choice.Source, opt harness.Options, env *Env) harness
 		}
 		switch c.Kind {
 		case 0:
-			co, l, err := kasm.Gather(c.WG)
+			var co *insts.KernelCodeObject
+			var l []string
+			var err error
+			if c.WGY > 1 {
+				co, l, err = kasm.Gather2D(c.WG/c.WGY, c.WGY, c.GridW)
+			} else {
+				co, l, err = kasm.Gather(c.WG)
+			}
 			if err != nil {
 				harness.Bug("kasm: %v", err)
 			}
@@ -167,7 +187,11 @@ func C18(t *testing.T, ch *choice.Source, opt harness.Options, env *Env) harness
 			d.MemCopyH2D(ctx, dOut, make([]uint32, n))
 			outPtr = uint64(dOut)
 			args := kasm.GatherArgs{In: uint64(dIn), Out: uint64(dOut), Mask: uint32(n - 1), K: k, C: cc}
-			d.LaunchKernel(ctx, co, [3]uint32{uint32(n), 1, 1}, [3]uint16{uint16(c.WG), 1, 1}, &args)
+			if c.WGY > 1 {
+				d.LaunchKernel(ctx, co, [3]uint32{uint32(c.GridW), uint32(n / c.GridW), 1}, [3]uint16{uint16(c.WG / c.WGY), uint16(c.WGY), 1}, &args)
+			} else {
+				d.LaunchKernel(ctx, co, [3]uint32{uint32(n), 1, 1}, [3]uint16{uint16(c.WG), 1, 1}, &args)
+			}
 		case 1:
 			MakeGPUs = 1
 			MakeGPUCounts = []int{1, c.N}
